@@ -317,6 +317,9 @@ type Type struct {
 	Type            []*Type    `yang:"type"` // len > 1 only when Name is "union"
 
 	YangType *YangType
+
+	// resolveErrs are the errors found when YangType was resolved.
+	resolveErrs []error
 }
 
 func (Type) Kind() string             { return "type" }
